@@ -61,7 +61,9 @@ Tau(T, a) == QAdd(T, QMul(QMul(QHalf, a), QMul(T, T)))
 
 F0s == {MId, IntMat(<<<<1, 1, 0>>, <<0, 1, 0>>, <<0, 0, 1>>>>), IntMat(<<<<2, 0, 1>>, <<-1, 1, 0>>, <<0, 1, 1>>>>),
         [i \in I3 |-> [j \in I3 |-> IF i = j THEN (IF i = 1 THEN <<1, 2>> ELSE IF i = 2 THEN Q(2) ELSE QOne) ELSE (IF i = 3 /\ j = 1 THEN <<1, 3>> ELSE QZ)]]}
-Ts == {<<1, 2>>, QOne}
+\* 9/200: a short history; the harness integrates it as 50 very short calls at rate factors 1e3 and 1e-15
+\* (velocity gradient k M over a duration T / k has the same flow map)
+Ts == {<<1, 2>>, QOne, <<9, 200>>}
 \* g(s) = 1 + a s along time ("t") or along the first position coordinate of x(t) = v t ("x")
 GClasses == {[via |-> "const", a |-> QZ], [via |-> "t", a |-> <<1, 2>>], [via |-> "x", a |-> <<1, 4>>]}
 XVel1 == <<7, 10>>             \* first component of the pathline velocity used for "x"
@@ -71,22 +73,24 @@ EffA(g) == IF g.via = "x" THEN QMul(g.a, XVel1) ELSE g.a
 GInt(g) == EAdd(EParam("s"), EMul(EQ(QMul(QHalf, EffA(g))), EMul(EParam("s"), EParam("s"))))
 Step(fam, M, sol, T, g) == [fam |-> fam, M |-> MatToSeq(M), T |-> T, g |-> g, trace |-> MTrace(M), sol |-> sol, gint |-> GInt(g)]
 
+\* (duration, g class) pairs: the short duration only with constant g (rationals stay small)
+TG == {tg \in Ts \X GClasses : tg[2].via = "const" \/ tg[1] # <<9, 200>>}
 SingleCases ==
     {[kind |-> "single", F0 |-> MatToSeq(F0),
-      steps |-> << Step("nil", N, SolNil(N, Tau(T, EffA(g)), F0), T, g) >>] :
-        N \in Nil2Set \cup Nil3Set, F0 \in F0s, T \in Ts, g \in GClasses}
+      steps |-> << Step("nil", N, SolNil(N, Tau(tg[1], EffA(tg[2])), F0), tg[1], tg[2]) >>] :
+        N \in Nil2Set \cup Nil3Set, F0 \in F0s, tg \in TG}
   \cup
     {[kind |-> "single", F0 |-> MatToSeq(F0),
-      steps |-> << Step("lamN", MAdd(MScale(p[1], MId), p[2]), SolLamN(p[1], p[2], Tau(T, EffA(g)), F0), T, g) >>] :
-        p \in LamNSet, F0 \in F0s, T \in Ts, g \in GClasses}
+      steps |-> << Step("lamN", MAdd(MScale(p[1], MId), p[2]), SolLamN(p[1], p[2], Tau(tg[1], EffA(tg[2])), F0), tg[1], tg[2]) >>] :
+        p \in LamNSet, F0 \in F0s, tg \in TG}
   \cup
     {[kind |-> "single", F0 |-> MatToSeq(F0),
-      steps |-> << Step("sym", SymMat(Qm, l), SolSym(Qm, l, Tau(T, EffA(g)), F0), T, g) >>] :
-        Qm \in SymQs, l \in SymLs, F0 \in F0s, T \in Ts, g \in GClasses}
+      steps |-> << Step("sym", SymMat(Qm, l), SolSym(Qm, l, Tau(tg[1], EffA(tg[2])), F0), tg[1], tg[2]) >>] :
+        Qm \in SymQs, l \in SymLs, F0 \in F0s, tg \in TG}
   \cup
     {[kind |-> "single", F0 |-> MatToSeq(F0),
-      steps |-> << Step("skew", MScale(w, Cross(k)), SolSkew(k, w, Tau(T, EffA(g)), F0), T, g) >>] :
-        k \in SkewAxes, w \in {Q(1), Q(3)}, F0 \in F0s, T \in Ts, g \in GClasses}
+      steps |-> << Step("skew", MScale(w, Cross(k)), SolSkew(k, w, Tau(tg[1], EffA(tg[2])), F0), tg[1], tg[2]) >>] :
+        k \in SkewAxes, w \in {Q(1), Q(3)}, F0 \in F0s, tg \in TG}
 
 \* piecewise histories: products of nilpotent steps, each an update call (or several)
 SeqFlows == {MScale(Q(2), E3(1, 3)), MScale(Q(2), E3(2, 1)), IntMat(<<<<1, -1, 0>>, <<1, -1, 0>>, <<0, 0, 0>>>>),
